@@ -11,6 +11,7 @@ import (
 	"github.com/Trendyol/go-dcp/models"
 	"github.com/bytedance/sonic"
 	"github.com/prometheus/client_golang/prometheus"
+	"os"
 	"strings"
 	"time"
 
@@ -89,6 +90,8 @@ func init() {
 			}
 			out = append(out, seq...)
 			out = append(out, Instance{Scenario: "c02_sessions", Params: mustJSON(SessionsParams{}), Bound: 0, Shards: 2, Note: "saves in the sessions after real rebalances that grow / shift the assignment: what is acknowledged on a newly acquired vBucket is stored by the next save (checked by the next session's stream request)"})
+			out = append(out, Instance{Scenario: "c02_twogroups", Params: mustJSON(struct{}{}), Bound: 0, Note: "two consumer groups in one process: a successful save of a group stores ITS positions in ITS documents"})
+			out = append(out, Instance{Scenario: "c05_windowcommit", Params: mustJSON(struct{}{}), Bound: 0, Note: "Commit() inside a rebalance window (manual checkpointing, couchbase and file metadata): what was stored before stays stored"})
 			out = append(out, Instance{Scenario: "c05_grow", Params: mustJSON(struct{}{}), Bound: 0, Note: "a rebalance that enlarges the range: what is acknowledged on the acquired vBuckets survives the last tick of the previous session's schedule and is stored"})
 			out = append(out, Instance{Scenario: "c05_rebalance_paths", Params: mustJSON(struct{}{}), Bound: 0, Note: "the save that precedes the close of a rebalance, for every way a rebalance is requested (bus, PUT /membership/info, GET /rebalance)"})
 			out = append(out, Instance{Scenario: "c05_finite_close", Params: mustJSON(struct{}{}), Bound: 0, Note: "the closing save when the client stops on its own (finite mode, every stream ended): what was acknowledged is stored when Start() has returned"})
@@ -681,6 +684,94 @@ func init() {
 			}
 			vrt.SetOutcome(desc)
 			e.D.Close()
+		}}
+	}
+}
+
+// c05_windowcommit: durable progress is never destroyed. Manual checkpointing: vb0 is acknowledged up to 2 and
+// committed, a further acknowledgement (3) is left uncommitted; a rebalance closes the stream (manual mode: without
+// saving) and the application calls Commit() inside the rebalance window - a save "issued when nothing changed"
+// as far as the (now empty) session is concerned. Whatever that save does, the store still holds at least
+// position 2 for vb0 afterwards, and the session the rebalance opens resumes from it.
+func init() {
+	scenarios["c05_windowcommit"] = func(raw json.RawMessage) *vrt.Scenario {
+		return &vrt.Scenario{Name: "c05_windowcommit", FreeChoices: true, NoTimerAlt: true, MaxSteps: 400000, Main: func() {
+			resetGlobals()
+			backend := []string{"couchbase", "file"}[vrt.Choose(2, true, "backend")]
+			// the acknowledgement of (vb0,3): never / before the rebalance, uncommitted / inside the rebalance window
+			when := vrt.Choose(3, true, "acknowledgement-of-the-third-event")
+			pending := when == 1
+			o := EnvOpts{Vbs: 2, CheckpointType: "manual", WrapMeta: true, RebalanceDelay: 20 * time.Second}
+			if backend == "file" {
+				f, _ := os.CreateTemp("", "ckpt*.json")
+				o.Metadata, o.FileName = "file", f.Name()
+				f.Close()
+				os.Remove(o.FileName)
+				defer os.Remove(o.FileName)
+			}
+			c := NewCluster(&o)
+			c.Append(0, marker(1, 3), mut(1, "a1"), mut(2, "a2"), mut(3, "a3"))
+			c.Append(1, marker(1, 1), mut(1, "b1"))
+			e := NewEnv(c, o)
+			e.Stream.Open()
+			c.WaitIdle()
+			find := func(vb uint16, seq uint64) *Delivered {
+				for _, d := range e.Cons.Events {
+					if d.Vb == vb && d.Seq == seq {
+						return d
+					}
+				}
+				return nil
+			}
+			if find(0, 3) == nil || find(1, 1) == nil {
+				vrt.Failf("harness: events not delivered")
+				return
+			}
+			find(0, 2).Ctx.Ack()
+			find(1, 1).Ctx.Ack()
+			e.Stream.Save()
+			desc := fmt.Sprintf("%s metadata, manual checkpointing, vb0 committed at 2 (uncommitted acknowledgement of 3: %v), Commit() inside the rebalance window", backend, pending)
+			if st, _ := e.StoredSeq(0); st != 2 {
+				vrt.Failf("harness: %s: stored %d after the first commit", desc, st)
+				return
+			}
+			if pending {
+				find(0, 3).Ctx.Ack()
+			}
+			n0 := len(c.Requests)
+			e.Stream.Rebalance()
+			vrt.Sleep(5 * time.Second)
+			if when == 2 {
+				find(0, 3).Ctx.Ack()
+				desc += " after a late acknowledgement of (vb0,3) inside the window"
+			}
+			commit := vrt.Choose(2, true, "commit-inside-the-window") == 1
+			if commit {
+				e.Stream.Save() // what Dcp.Commit() does
+			} else {
+				desc = strings.Replace(desc, "Commit() inside the rebalance window", "no Commit() inside the rebalance window", 1)
+			}
+			if st, _ := e.StoredSeq(0); st < 2 {
+				vrt.Failf("%s: the store held 2 for vb0 and holds %d after that Commit() (durable progress destroyed)", desc, st)
+			}
+			if st, _ := e.StoredSeq(1); st < 1 {
+				vrt.Failf("%s: the store held 1 for vb1 and holds %d after that Commit()", desc, st)
+			}
+			vrt.Sleep(o.RebalanceDelay + 5*time.Second)
+			vrt.Quiesce()
+			c.WaitIdle()
+			stored0, _ := e.StoredSeq(0)
+			for _, r := range c.Requests[n0:] {
+				if r.Kind == "openstream" && r.Vb == 0 && r.Args[2] < 2 {
+					vrt.Failf("%s: the session the rebalance opened requested vb0 from %d, position 2 had been committed", desc, r.Args[2])
+				}
+				// ... and with exactly what is persisted for it (an acknowledgement that was never stored is not)
+				if r.Kind == "openstream" && r.Vb == 0 && r.Args[2] != stored0 {
+					vrt.Failf("%s: the session the rebalance opened requested vb0 from %d, the store holds %d", desc, r.Args[2], stored0)
+				}
+			}
+			vrt.SetOutcome(desc)
+			e.Stream.Close(false)
 		}}
 	}
 }
